@@ -96,9 +96,48 @@ theorem binWCode_nat (v : String) (op : BOp) (x y : WA) :
   · simp [h]
   · by_cases h2 : lowEmitted op y = true <;> simp [h, h2, Function.comp_def]
 
+theorem planCode_nat (op : BOp) (p : Plan) :
+    planCode (f n) (fun a => f (r a)) op p = (planCode n r op p).map fun p => (p.1, f p.2) := by
+  have hl : ∀ t, loadLeft (f n) (fun a => f (r a)) t = (loadLeft n r t).map fun p => (p.1, f p.2) := by
+    intro t; cases t <;> simp [loadLeft, loadA_nat]
+  unfold planCode
+  by_cases h1 : p.spill = true <;> by_cases h2 : p.save = true <;> simp [h1, h2, hl, opCode_nat]
+
+theorem genE_nat : ∀ (e : GExpr) (st : ES),
+    genE (f n) (fun a => f (r a)) st e = (genE n r st e).map fun x => (x.1.map (fun p => (p.1, f p.2)), x.2) := by
+  intro e
+  induction e with
+  | atom a => intro st; simp [genE]
+  | bin l op rr ihl ihr =>
+    intro st
+    simp only [genE, ihl st]
+    cases hl : genE n r st l with
+    | none => simp
+    | some x =>
+      obtain ⟨cl, tl, s1⟩ := x
+      simp only [Option.map_some, ihr s1]
+      cases hr : genE n r s1 rr with
+      | none => simp
+      | some y =>
+        obtain ⟨cr, tr, s2⟩ := y
+        simp only [Option.map_some, arithm]
+        cases hp : plan s2 tl op tr with
+        | none => simp
+        | some p => simp [planCode_nat]
+
+theorem exprCode_nat (v : LV) (e : GExpr) :
+    exprCode (f n) (fun a => f (r a)) v e = (exprCode n r v e).map fun p => (p.1, f p.2) := by
+  unfold exprCode
+  rw [genE_nat]
+  cases h : genE n r {} e with
+  | none => simp
+  | some x =>
+    obtain ⟨c, t, s⟩ := x
+    cases t <;> simp [storeA_nat]
+
 theorem rtemplate_nat (zp : String → Bool) (s : RStmt) :
     rtemplate (f n) (fun a => f (r a)) zp s = (rtemplate n r zp s).map fun p => (p.1, f p.2) := by
-  cases s <;> simp [rtemplate, asgCode_nat, binCode_nat, incCode_nat, asgWCode_nat, binWCode_nat, chainCode_nat, loadA_nat, storeA_nat, opCode_nat, linCode_nat]
+  cases s <;> simp [rtemplate, asgCode_nat, binCode_nat, incCode_nat, asgWCode_nat, binWCode_nat, chainCode_nat, loadA_nat, storeA_nat, opCode_nat, linCode_nat, exprCode_nat]
 
 end nat
 
